@@ -397,6 +397,21 @@ fn continuity(idx: u64, rng: &mut Rng, mon: &mut Mon) {
             mon.violation(&format!("continuity:first-answer-leaves-the-posture:pose-inside-band:signs46={}", signs), "pose inside the wrist band (not exactly singular), previous realises it, but the first continuation answer is on another posture / J4+J6 jumped", detail("first-stays-inside-band", &qb, &sols, json!({})));
         }
     }
+    // clause 1e: the same singular pose asked through Frame::forward_transformed (identity frame) with a previous vector
+    // that differs from qs in J4 / J6 (same pose): what comes back is what the solver answers for THAT previous vector
+    if rng.usize(4) == 0 && rp.signs[3] != 0 && rp.signs[5] != 0 {
+        let e = rng.range(-1.0, 1.0);
+        let mut pv = q;
+        pv[3] += e * rp.signs[3] as f64;
+        pv[5] -= e * rp.signs[5] as f64;
+        let frame = rs_opw_kinematics::frame::Frame { robot: std::sync::Arc::new(kin), frame: nalgebra::Isometry3::identity() };
+        let (sols, _) = frame.forward_transformed(&q, &pv);
+        mon.count("continuity.through_forward_transformed");
+        match sols.first() {
+            Some(s) if (0..6).all(|j| (s[j] - pv[j]).abs() <= s_tol) => mon.held(),
+            _ => mon.violation(&format!("continuity:first-answer-not-previous:forward-transformed:signs46={}", signs), "wrist-singular pose through Frame::forward_transformed: the previous joints realise it but are not the first answer", detail("first-is-previous-through-frame", &pv, &sols, json!({"tolerance": s_tol}))),
+        }
+    }
     // clause 2c: as 2b, but the previous J5 is INSIDE the band without being zero (a trajectory sampled finer than
     // the band): 1e-7 .. 1.5e-4 rad on either side
     {
